@@ -853,7 +853,13 @@ func (in cInput) String() string {
 	return o + " " + strings.Join(parts, " ")
 }
 
+// shardErr: how a shard's call or stream fails. Odd shards end with Canceled, the code a client sees when
+// the server side aborts a stream (the shard's leader is closed or steps down while it answers): that is a
+// failure of the shard like any other, not the caller's own cancellation.
 func shardErr(shard int64) error {
+	if shard%2 == 1 {
+		return status.Error(codes.Canceled, fmt.Sprintf("shard-%d-failed", shard))
+	}
 	return status.Error(codes.Internal, fmt.Sprintf("shard-%d-failed", shard))
 }
 
